@@ -158,9 +158,26 @@ func wedgeScenario(w *World, p *Plan, rec *Record) {
 		r := w.opRNG(k)
 		w.stepIdx = k
 		kinds := []string{"cancel", "cancel", "disk-error", "stream-vs-writers", "cancel"}
+		if w.Cfg.TruncateAt > 0 {
+			kinds = append(kinds, "burst", "burst")
+		}
 		kind := kinds[r.Intn(len(kinds))]
 		tag := kind
 		switch kind {
+		case "burst":
+			// several admissions at once while the weight-triggered truncation loop wants the ledger lock
+			nb := 3 + r.Intn(6)
+			for j := 0; j < nb; j++ {
+				st := Step{Op: []string{"propose", "inject", "propose"}[r.Intn(3)], Kind: "valid", Node: n.Idx, From: 0, To: 1, Sup: uint64(20 + j), Via: "ledger", NoWait: true}
+				w.Results = append(w.Results, StepResult{})
+				w.Trxs = append(w.Trxs, nil)
+				w.execStep(len(w.Results)-1, &st)
+			}
+			if !w.waitOps(opBudget) {
+				break
+			}
+			w.probe("c08-burst-of-admissions")
+			samples = append(samples, fmt.Sprintf("burst:%d", nb))
 		case "cancel":
 			op := []string{"propose", "gossip-add", "balance", "history", "stream", "truncate"}[r.Intn(6)]
 			depth := 0
@@ -297,7 +314,7 @@ func wedgeScenario(w *World, p *Plan, rec *Record) {
 		w.violate("C08", "no-return", opKind(o.name), o.node, "operation %s did not return", o.name)
 	}
 	w.checkFatal(w.Faults["disk-error"] > 0)
-	rec.Nontrivial = w.Probes["c08-early-exit-or-cancel"] > 0 || w.Probes["c08-stream-consumed"] > 0
+	rec.Nontrivial = w.Probes["c08-early-exit-or-cancel"] > 0 || w.Probes["c08-stream-consumed"] > 0 || w.Probes["c08-burst-of-admissions"] > 0
 	rec.Sample = samples
 	_ = accountant.ErrBreak
 }
@@ -321,6 +338,9 @@ func init() {
 			// the weight-triggered truncation loop runs as well, racing with the cancelled operations
 			cfg.TruncateDiff = uint64(2 + r.Intn(3))
 			cfg.TruncateAt = 2*cfg.TruncateDiff + uint64(r.Intn(3))
+			if r.Chance(0.6) {
+				cfg.SignalBuf = uint64(1 + r.Intn(3)) // short truncate-signal channel (shipped: 50)
+			}
 		}
 		return &Plan{Scenario: "wedge", Cfg: cfg}
 	}
